@@ -938,6 +938,40 @@ def e_datetime_ctor(it, args, kwargs, node):
     return SymV(it.fresh('datetime'), 'datetime', origin=('datetime-ctor', list(args), dict(kwargs)), tags=tags)
 
 
+def e_partial(it, args, kwargs, node):
+    if not args:
+        return UnkV('partial')
+    return PartialV('partial', args[0], args[1:], kwargs)
+
+
+def e_methodcaller(it, args, kwargs, node):
+    return PartialV('methodcaller', args[0], args[1:], kwargs) if args else UnkV('methodcaller')
+
+
+def e_itemgetter(it, args, kwargs, node):
+    return PartialV('itemgetter', None, args, {})
+
+
+def e_attrgetter(it, args, kwargs, node):
+    return PartialV('attrgetter', None, args, {})
+
+
+def e_accumulate(it, args, kwargs, node):
+    if len(args) == 1 and set(kwargs) <= {'initial'}:
+        init = kwargs.get('initial')
+        has = not (init is None or (isinstance(it.resolve(init), ConstV) and it.resolve(init).value is None))
+        return it.call_function(it.an.prog.synthetic('accumulate_add'),
+                                [args[0], init if has else IntV(0), ConstV(has)], {}, node=node)
+    it.note_unknown(node, 'itertools.accumulate with a function')
+    return UnkV('accumulate')
+
+
+def e_compress(it, args, kwargs, node):
+    if len(args) == 2:
+        return it.call_function(it.an.prog.synthetic('compress2'), list(args), {}, node=node)
+    return UnkV('compress')
+
+
 def e_exitstack(it, args, kwargs, node):
     return it.instantiate(it.an.prog.synthetic('ExitStack'), [], {}, node)
 
@@ -1185,6 +1219,8 @@ EXT = {
     'struct.unpack': e_struct_unpack, 'struct.pack': e_struct_pack, 'struct.calcsize': e_struct_calcsize,
     'binascii.hexlify': e_hexlify, 'binascii.b2a_hex': e_hexlify,
     'binascii.unhexlify': e_unhexlify, 'binascii.a2b_hex': e_unhexlify,
+    'functools.partial': e_partial, 'operator.methodcaller': e_methodcaller, 'operator.itemgetter': e_itemgetter,
+    'operator.attrgetter': e_attrgetter, 'itertools.compress': e_compress, 'itertools.accumulate': e_accumulate,
     'contextlib.ExitStack': e_exitstack, 'contextlib.contextmanager': e_contextmanager,
     'functools.reduce': e_reduce, 'operator.xor': _operator('op_xor'), 'operator.add': _operator('op_add'),
     'operator.or_': _operator('op_or'), 'operator.and_': _operator('op_and'),
